@@ -85,6 +85,22 @@ def fragment_header(state):
 
         state["_picture_initial_fragment_offset"] = fragment_offset
     else:
+        # Errata: not specified in standard...
+        #
+        # (14.2) A fragment containing slices must belong to a fragmented
+        # picture which is still in progress (i.e. one started by a fragment
+        # with fragment_slice_count==0 and not yet completely received). If no
+        # fragmented picture has been started in this sequence the first
+        # fragment's offset and slice count are not available.
+        if state["_fragment_slices_remaining"] == 0:
+            raise TooManySlicesInFragmentedPicture(
+                state.get("_picture_initial_fragment_offset", fragment_offset),
+                fragment_offset,
+                state.get("fragment_slices_received", 0),
+                state["_fragment_slices_remaining"],
+                state["fragment_slice_count"],
+            )
+
         # (14.2) Appart from when fragment_slice_count==0, the picture number
         # must not change
         if state["_last_picture_number"] != state["picture_number"]:
